@@ -90,3 +90,7 @@ func vh_C18_L2_block_write_gate() {
 
 // C18.L2b: a failed write restores exactly the counter it consumed (same obligation as vh_C15_L1).
 func vh_C18_L2_failed_write_restores_numbers() { vh_C15_L1_write_accounting() }
+
+// C18.L2c: a writer parked behind the gate when a graceful shutdown begins (local or
+// peer-initiated) is released with an error and queues nothing (same obligation as C08.L2).
+func vh_C18_L2_parked_writer_rejected_at_shutdown() { vh_C08_L2_parked_writer_rejected() }
